@@ -5,24 +5,24 @@ V = os.path.dirname(os.path.dirname(os.path.abspath(__file__)))
 sys.path.insert(0, os.path.join(V, 'tools'))
 props = [json.loads(l) for l in open(os.path.join(V, 'properties.jsonl'))]
 TECH = {
- 'C01': 'Coq theorems: reader on the recorder model = fold of add_frame, writer on that game = the recorder bytes; T-gen same-shape obligations; differential run of reader/writer/recorder models',
- 'C02': 'Coq theorems over the archive model with library codecs as hypotheses; differential run through the real arrow2/tar/serde under each compression',
- 'C03': 'translator-regenerated layout tables + Coq theorem (all versions/payloads) + kernel-checked agreement with the hand spec; spec-offset oracle on the real columns',
- 'C04': 'Coq theorem: parsed frames = direct fold over the event history (rows, presence bits, item offsets); differential run incl. presence-pattern sweeps',
- 'C05': 'Coq theorems over the hand model of game_start/game_end and serde renderings; 3-way differential run (implementation, model, Python spec transcription) with byte-sensitivity sweep',
- 'C06': 'Coq theorem: the reader model returns a value or an error for every byte string (no panic branch reachable, fuel sufficient); class-prediction differential run on structure-aware mutants',
- 'C07': 'Coq theorem: every proper prefix of a finished well-formed replay is rejected (parser extension lemma); exhaustive prefix runs for .slp and .slpp',
- 'C08': 'Coq theorems: unknown declared events are no-ops of the event handler and extra payload bytes are ignored by the row decoder; differential run with insertions at every boundary',
- 'C09': 'Coq theorem over the regenerated guard (all versions) + differential run of both real writers',
- 'C10': 'Coq theorem: skip-frames read = full read on start/end/metadata with zero frames; differential run for .slp and .slpp',
- 'C11': 'Coq theorem: hashed bytes = consumed bytes = whole file, independent of fragmentation and skip; differential run with fragmenting readers against one-shot XXH3',
- 'C12': 'Coq theorems: fragmentation independence of the read loop, bytes_read accounting, monotone state; differential run of the incremental API',
- 'C13': 'Coq theorem over regenerated transpose tables (identity on names, Option kinds = gates) + differential run of transpose_one against column dumps',
- 'C14': 'Coq theorems over regenerated Arrow tables (schema = spec, positional round trip) + differential run of into/from_struct_array',
- 'C15': 'Coq theorem over the hand model of rollbacks (all id sequences >= -123) + differential run, exhaustive on short sequences',
- 'C16': 'Coq theorems: UBJSON write/read round trip on all well-formed trees, order preserved; differential run on random trees',
- 'C17': 'Coq theorem: write of any accepted game of a tolerated-irregular replay is a fixed point with consistent declared length; differential run',
- 'C18': 'Coq theorems over the tar block model (entry order, presence conditions, determinism); byte-for-byte archive prediction in the differential run',
+ 'C01': 'Coq theorems (all well-formed replays): read(emit r) = game_of r, write(game_of r) = emit r; writer model = interpreters of tables regenerated from ser.rs / slippi.rs (payload sizes, raw size, frame write order, write() steps); same-shape obligations on regenerated frame tables; differential run of reader/writer/recorder models against the library',
+ 'C02': 'Coq theorems over the archive model with library codecs as explicit premises, incl. the full chain .slp -> .slpp -> .slp on every well-formed replay; differential run through the real arrow2/tar/serde under each compression',
+ 'C03': 'translator-regenerated layout tables + Coq theorems (all versions/payloads; end to end on parsed games) + kernel-checked agreement with the hand spec; spec-offset oracle on the real columns and record views',
+ 'C04': 'Coq theorems: parsed frames = direct fold over the event history, columns written out explicitly; event-handler arms = step lists regenerated from parse_event; differential run incl. presence-pattern sweeps',
+ 'C05': 'Coq theorems over the hand model of game_start/player/game_end restated through read layouts regenerated from the source; serde renderings; 3-way differential run (implementation, model, Python spec transcription) with byte-sensitivity sweep',
+ 'C06': 'Coq theorem: the reader model returns a value or an error for every byte string (no panic branch reachable, fuel sufficient), stream faults surface as errors; class-prediction differential run on structure-aware mutants, fault at every read call',
+ 'C07': 'Coq theorems: reads extend (stable under appended bytes), every proper prefix of a well-formed replay is rejected (full and skip), .slpp cut at entry boundaries rejected; exhaustive prefix runs for .slp and .slpp',
+ 'C08': 'Coq theorems: unknown declared events are no-ops in any state and anywhere in a whole file; extra payload bytes ignored; splitter handling regenerated from source; differential run with insertions at every boundary, both read modes',
+ 'C09': 'Coq theorems over the regenerated guard (all versions) and both writer models (refuse above, .slp refuses only then) + differential run of both real writers on games with and without frames',
+ 'C10': 'Coq theorems: skip-frames read = full read on start/end/metadata with zero frames, result writable and a fixed point; reader = assembly of pieces regenerated from read(); differential run for .slp and .slpp',
+ 'C11': 'Coq theorems: hashed bytes = consumed bytes = whole file, for every fragmentation schedule, full and skip reads; differential run with scheduled readers against one-shot XXH3',
+ 'C12': 'Coq theorems: every call appends only, exact byte accounting, one-shot = driver + epilogue, every call and both one-shot reads independent of fragmentation; call regenerated from parse_event; differential run of the incremental API incl. in-progress views',
+ 'C13': 'Coq theorems over regenerated transpose tables (identity on names, Option kinds = gates) and end to end: view of row i = i-th frame occurrence; differential run of transpose_one (finished and in-progress) against column dumps',
+ 'C14': 'Coq theorems over regenerated Arrow tables (schema = spec, positional round trip, export total with per-version children) + differential run of into/from_struct_array',
+ 'C15': 'Coq theorem over the hand model of rollbacks (all id sequences >= -123) + differential run: exhaustive short sequences, aliasing ids, masks of parsed games',
+ 'C16': 'Coq theorems: UBJSON write/read round trip on all well-formed trees, order preserved, truncation rejected, JSON rendering injective; markers regenerated from source; differential run on random trees',
+ 'C17': 'Coq theorems: canonical fixed point; every irregular rendering (unknown events, junk, independent in-frame reorderings; decidable class) reads to the canonical game and rewrites to a self-consistent fixed point; declared length = regenerated raw_size terms; differential run incl. class membership',
+ 'C18': 'Coq theorems over the tar block model and entry tables regenerated from the .slpp writer/reader (order, presence, dispatch, stop point); byte-for-byte archive prediction in the differential run',
  'C19': 'Coq theorems: regenerated fix_char = stated map (all code points), idempotent, scalar-valued; NUL truncation for any strict decoder; exhaustive differential runs',
  'C20': 'Coq theorems over regenerated gte/lt and the hand model of display/parse + exhaustive/boundary differential runs',
 }
